@@ -1,6 +1,7 @@
 package main
 
 import (
+	"crypto/x509"
 	"errors"
 	"fmt"
 	"strconv"
@@ -66,6 +67,7 @@ func runHist(h *Hist) (string, string) {
 		starts[i] = make(chan struct{}, 1)
 	}
 	cur := -1
+	calls := make([]int, n) // calls of the parked storage operation per request
 	decided := make([]bool, n)
 	parked := map[string]bool{"revoke": true, "revokessh": true, "isrevoked": true, "issshrevoked": true}
 	hooks.Before = func(op, key string) error {
@@ -79,6 +81,12 @@ func runHist(h *Hist) (string, string) {
 		if !parked[op] {
 			return nil
 		}
+		// only the request's first call of its storage operation is the modelled step (parked, faulted); should the code
+		// call it again (a retry), the further calls go straight to the database and their result reaches the answer
+		calls[t]++
+		if calls[t] > 1 {
+			return nil
+		}
 		events <- evt{t: t, kind: "entry"}
 		if !<-gates[t] {
 			return errAbort
@@ -90,7 +98,7 @@ func runHist(h *Hist) (string, string) {
 	}
 	hooks.After = func(op, key string, ok bool, err error) error {
 		t := cur
-		if t < 0 || !parked[op] {
+		if t < 0 || !parked[op] || calls[t] > 1 {
 			return nil
 		}
 		f := h.Ops[t].Fault
@@ -277,6 +285,43 @@ func runHist(h *Hist) (string, string) {
 	cur = -1
 	in := fmt.Sprintf("h reqs=%s evs=%s", strings.Join(reqIn, ";"), c.List(evs))
 	impl := strings.Join(answers, ",") + " x=" + dumpTable(e, "revoked_x509_certs") + " s=" + dumpTable(e, "revoked_ssh_certs")
+	// relying parties without OCSP: what the CRL says and what the renewal gate says must agree. With CRL publication on,
+	// a list generated now contains exactly the serials of the revoked table whose certificate did not expire more than 1 h ago.
+	if h.CRL {
+		if err := e.ca.Auth.GenerateCertificateRevocationList(); err != nil {
+			impl += " VIOLATION=crl-generation-failed"
+		} else if info, err := e.ca.Auth.GetCertificateRevocationList(); err != nil {
+			impl += " VIOLATION=no-crl-served"
+		} else if rl, err := x509.ParseRevocationList(info.Data); err != nil || rl.CheckSignatureFrom(e.ca.MiniCA.Intermediate) != nil {
+			impl += " VIOLATION=crl-malformed"
+		} else {
+			listed := map[string]bool{}
+			for _, en := range rl.RevokedCertificateEntries {
+				listed[en.SerialNumber.String()] = true
+			}
+			notAfter := map[string]time.Time{}
+			for _, xc := range xs {
+				notAfter[xc.crt.SerialNumber.String()] = xc.crt.NotAfter
+			}
+			want := 0
+			for _, en := range ss.Dump(e.ca.DB, "revoked_x509_certs") {
+				na, known := notAfter[en.Key]
+				if known && na.Before(rl.ThisUpdate.Add(-time.Hour)) {
+					if listed[en.Key] {
+						impl += " VIOLATION=crl-lists-long-expired-certificate"
+					}
+					continue
+				}
+				want++
+				if !listed[en.Key] {
+					impl += " VIOLATION=revoked-serial-missing-from-crl"
+				}
+			}
+			if want != len(listed) && !strings.Contains(impl, "VIOLATION=crl-lists") {
+				impl += " VIOLATION=crl-lists-serial-that-is-not-revoked"
+			}
+		}
+	}
 	// the property itself on the implementation's answers: a renewal that started after a
 	// revocation of the same certificate (in any accepted spelling of its serial) was acknowledged
 	// must not be allowed; a revocation acknowledged twice
@@ -330,10 +375,10 @@ func cornerHists() []*Hist {
 		// SSH: a revocation in any decimal spelling blocks renew and rekey, also after a restart; other spellings are refused
 		{NS: 2, Ops: []OpSpec{{"renewssh", 0, 0, "n"}, {"revssh", 0, 0, "n"}, {"renewssh", 0, 0, "n"}, {"rekeyssh", 0, 0, "n"}, {"revssh", 0, 0, "n"}, {"revssh", 1, 1, "n"}, {"renewssh", 1, 0, "n"}, {"renewssh", 0, 0, "n"}, {"revssh", 1, 2, "n"}, {"revssh", 1, 3, "n"}, {"revssh", 1, 4, "n"}},
 			Sched: append(append(append(seqSched(7), -1), 7, 7, 7), 8, 8, 8, 9, 9, 9, 10, 10, 10)},
-		// expired certificates (renewable after expiry; presented to the renew / rekey handlers as peer certificate — the renew-token
-		// route cannot be used for them here because the fixture's intermediate is younger than they are): renewed before, refused after the revocation
+		// expired certificates (renewable after expiry): through the renew-token route (made for them; the environment's CA is 90 days
+		// old so that they chain at their own time) and presented as peer certificate: renewed before, refused after the revocation
 		// (by token: expiry taken from the certificate table; over mTLS: from the presented certificate), also after a restart
-		{NXE: 2, Ops: []OpSpec{{"renew", 0, 0, "n"}, {"revtok", 0, 1, "n"}, {"renew", 0, 0, "n"}, {"rekey", 0, 0, "n"}, {"rekey", 1, 0, "n"}, {"revmtls", 1, 0, "n"}, {"renew", 1, 0, "n"}, {"renew", 0, 0, "n"}, {"rekey", 1, 0, "n"}},
+		{NXE: 2, Ops: []OpSpec{{"renewtok", 0, 0, "n"}, {"revtok", 0, 1, "n"}, {"renewtok", 0, 0, "n"}, {"rekey", 0, 0, "n"}, {"renewtok", 1, 0, "n"}, {"revmtls", 1, 0, "n"}, {"renewtok", 1, 0, "n"}, {"renewtok", 0, 0, "n"}, {"rekey", 1, 0, "n"}},
 			Sched: append(append(seqSched(7), -1), 7, 7, 7, 8, 8, 8)},
 		// generate-on-revoke: regeneration failure after the record is stored
 		{CRL: true, NX: 2, Ops: []OpSpec{{"revtok", 0, 0, "c"}, {"renew", 0, 0, "n"}, {"revtok", 0, 0, "n"}, {"revmtls", 1, 0, "n"}, {"renew", 1, 0, "n"}}, Sched: seqSched(5)},
@@ -363,9 +408,6 @@ func genHist(r *c.Rng) *Hist {
 			op.Kind = c.Pick(r, []string{"revtok", "revtok", "revmtls", "revacme", "renew", "renew", "rekey", "renewtok"})
 			if op.Kind == "revtok" || op.Kind == "revmtls" {
 				op.Spell = r.Intn(8)
-			}
-			if op.Kind == "renewtok" && op.Cert >= h.NX {
-				op.Kind = "renew" // see cornerHists: expired certificates are older than the fixture's intermediate
 			}
 		}
 		op.Fault = "n"
